@@ -79,7 +79,12 @@ def strategy(tier):
         "features": obs.feature_configs(min_size=1, max_size=5),
         "reward": st.sampled_from(sorted(obs.REWARDS)),
         "flags": gen.weighted((1, st.just([True, True])), (1, st.tuples(st.booleans(), st.booleans()).map(list))),
-        "filters": st.one_of(st.just("default"), gen.filter_configs(max_len=2)),
+        "filters": st.one_of(
+            st.just("default"),
+            gen.filter_configs(max_len=2),
+            # user-written filters, one of which may hide every ready operation
+            st.sampled_from([["custom_reserve_machine0"], ["custom_hide_earliest"], ["custom_last_job_only", "custom_reserve_machine0"]]),
+        ),
         "padding": gen.weighted((4, st.just(True)), (1, st.just(False))),
         "episodes": st.lists(
             st.tuples(gen.histories(max_len=16, max_a=15), st.one_of(st.none(), st.integers(0, 12))).map(list),
